@@ -437,3 +437,96 @@ def fix_cases(h, reinserts):
         if script:
             lines.append("fixrun %s/%d %d %s" % (h.id, p, 1 if reinserts else 0, ";".join(script)))
     return lines, fails
+
+
+# ------------------------------------------------------------------ C04: only opted-in data leaves a peer
+
+TY_NUM = {"A": 1, "B": 2, "E": 3, "V": 4, "U": 5, "Transform": 6, "Name": 7, "Visibility": 8, "PointLight": 9, "SpotLight": 10,
+          "DirLight": 11, "HMesh": 12, "HMat": 13, "Skinned": 14}
+ASSET_KEYS = {"mat": "material", "mesh": "mesh", "image": "image", "audio": "audio"}
+
+
+def peer_cfgs(h):
+    cfg = {}
+    for e in h.events:
+        if e["ev"] == "cfg":
+            for p in e["peers"]:
+                cfg[p["peer"]] = p
+    return cfg
+
+
+def filter_checks(h):
+    """attribute every received message to the peer that originated it and evaluate the property's
+    predicate on that peer's own configuration (implementation oracle) and through the model (lines)"""
+    lines, fails = [], []
+    cfg = peer_cfgs(h)
+    path_ty = {v: k for k, v in h.types.items()}
+    # per peer: list of (event index, state)
+    states = {}
+    for i, e in enumerate(h.events):
+        if e["ev"] == "frame" and e.get("state") is not None:
+            states.setdefault(e["peer"], []).append((i, e["state"]))
+    relayed = set()     # (kind, uuid, payload) the host received from a client: the host relays these
+    n = 0
+    for i, e in enumerate(h.events):
+        if e["ev"] != "frame":
+            continue
+        rcv = e["peer"]
+        for m in e["recv"]:
+            msg = m["msg"]
+            k = msg["k"]
+            if k not in ("spawn", "comp", "mat", "mesh", "image", "audio"):
+                continue
+            key = (k, msg.get("id"), msg.get("name"), msg.get("data"), msg.get("url"))
+            if m["as_server"]:
+                origin = m.get("from")
+                relayed.add(key)
+            else:
+                if key in relayed:
+                    continue          # relayed by the host, already judged at its origin
+                origin = 0
+            if origin is None or origin not in cfg:
+                continue
+            window = [s for (j, s) in states.get(origin, []) if j < i][-4:]
+            if not window:
+                continue
+            n += 1
+            inst = "%s/%d" % (h.id, n)
+            c = cfg[origin]
+            reg = ".".join(str(TY_NUM[t]) for t in c["registered"]) or "-"
+            if k == "comp":
+                ty = path_ty.get(msg["name"])
+                tnum = TY_NUM.get(ty, 99)
+                ok_any, line = False, None
+                for st in window:
+                    en = ent_of(st, msg["id"])
+                    if en is None:
+                        continue
+                    comps = ".".join(str(TY_NUM[t]) for t in en["comps"] if t in TY_NUM) or "-"
+                    excl = ".".join(str(TY_NUM[t]) for t in en["excl"]) or "-"
+                    line = "filter %s comp %s 1 %s %s %d" % (inst, reg, comps, excl, tnum)
+                    if ty in c["registered"] and ty in en["comps"] and ty not in en["excl"]:
+                        ok_any = True
+                        break
+                if line is None:
+                    continue      # the entity is gone on the originator: cannot be judged
+                lines.append(line if ok_any else line)
+                if not ok_any:
+                    fails.append(("C04", "peer %d originated a ComponentUpdated for %s which is %s there" % (
+                        origin, ty, "not registered" if ty not in c["registered"] else "excluded or absent"), {"msg": {"k": k, "id": msg["id"], "name": msg["name"]}}))
+            elif k == "spawn":
+                ok_any = any(ent_of(st, msg["id"]) is not None for st in window)
+                later = any(ent_of(s, msg["id"]) is not None for (j, s) in states.get(origin, []))
+                lines.append("filter %s spawn %d" % (inst, 1 if (ok_any or later) else 0))
+                if not (ok_any or later):
+                    fails.append(("C04", "peer %d announced an entity it never held as a SyncEntity" % origin, {"msg": msg}))
+            else:
+                cls = ASSET_KEYS[k]
+                sw = {"material": c["materials"], "image": c["materials"], "mesh": c["meshes"], "audio": c["audios"]}[cls]
+                has = any(msg["id"] in (st["assets"].get(cls) or {}) for st in window)
+                lines.append("filter %s asset %d%d%d %s %d" % (inst, c["materials"], c["meshes"], c["audios"], cls, 1 if has else 0))
+                if not sw:
+                    fails.append(("C04", "peer %d originated a %s update although that class is disabled there" % (origin, cls), {"msg": {"k": k, "id": msg["id"]}}))
+                elif not has:
+                    fails.append(("C04", "peer %d originated a %s update for an id it does not hold as a uuid asset" % (origin, cls), {"msg": {"k": k, "id": msg["id"]}}))
+    return lines, fails
